@@ -196,7 +196,10 @@ def run(ck):
                 n["text"] = "".join(rng.choice(['<p class="k">', "t", "</p>", "<span class='k2' style='a:b'>", "</span>", '<br class="k"/>', "<b>", "</b>"]) for _ in range(rng.randint(1, 6)))
         if any(c["tag"] == "mj-head" for c in d["children"]):
             d["children"] = [c for c in d["children"] if c["tag"] != "mj-head"]
-        gd.append((d, ".k{color:red}\n.k2 { font-size:9px; color:blue }\n.k,.zz{margin:0}"))
+        pool = [".k,.k2{padding:4px;}", ".k{color:green;}", ".k2{color:red;}", ".k,.zz{margin:0}", ".zz{font-size:9px}", ".k2 { font-size:9px; color:blue }",
+                ".k, .k2, .zz { line-height: 1; }", ".k{border:0}"]
+        rules = rng.sample(pool, rng.randint(2, 5))
+        gd.append((d, "\n".join(rules)))
     jobs3 = []
     for i, (d, c) in enumerate(gd):
         jobs3.append({"id": 2 * i, "src": docgen.to_mjml(without_style(d))})
